@@ -244,38 +244,98 @@ func ruleHalfClose(c *Ctx) {
 }
 
 // C02.FIRSTBYTES
-func ruleFirstBytes(c *Ctx) {
+// keyFinder: the TCP key finder found by role — the function that takes the per-connection snapshot / marks the matched entry —
+// with its helpers: where the first bytes are read, into what, and which call performs the trial decryption search.
+type keyFinder struct {
+	f      *ssa.Function
+	reg    *Region
+	rf     *ssa.Call   // io.ReadFull of the first bytes
+	bufs   []ssa.Value // allocation(s) the bytes are read into
+	search *ssa.Call   // the call of the search function (the one whose region decrypts with Unpack)
+}
+
+func findKeyFinders(c *Ctx) []*keyFinder {
 	p := c.P
-	n := 0
+	var out []*keyFinder
+	inSvc := func(h *ssa.Function) bool { return eng.PkgPathOf(h) != eng.Mod+"/service" }
 	for _, f := range p.FnsIn("service") {
-		var rf, mr *ssa.Call
+		if p.IsTestSupport(f) || f.Parent() != nil {
+			continue
+		}
 		snap := false
 		for _, cl := range eng.Calls(f) {
-			if call, ok := cl.(*ssa.Call); ok {
-				switch eng.CalleeName(&call.Call) {
-				case "io.ReadFull":
-					rf = call
-				case "io.MultiReader":
-					mr = call
-				}
-			}
-			if eng.MethodName(cl.Common()) == "SnapshotForClientIP" {
+			if n := eng.MethodName(cl.Common()); n == "SnapshotForClientIP" || n == "MarkUsedByClientIP" {
 				snap = true
 			}
 		}
-		if rf == nil || !snap || p.IsTestSupport(f) {
+		if !snap {
 			continue
 		}
+		kf := &keyFinder{f: f, reg: c.NewRegion(f, 2, inSvc)}
+		for _, call := range kf.reg.FindCalls(func(n string, _ *ssa.Call) bool { return n == "io.ReadFull" }) {
+			kf.rf = call
+		}
+		if kf.rf == nil {
+			continue
+		}
+		kf.bufs = p.Origins(kf.rf.Call.Args[1], deepF)
+		memo := map[*ssa.Function]int{}
+		for _, cl := range eng.Calls(f) {
+			if call, ok := cl.(*ssa.Call); ok {
+				if g := call.Call.StaticCallee(); g != nil && p.InRepo(g) && reaches(c, g, isCall("sdk/shadowsocks.Unpack"), memo) {
+					kf.search = call
+				}
+			}
+		}
+		out = append(out, kf)
+	}
+	return out
+}
+
+// sameBuf: v is (all of) the buffer the first bytes were read into.
+func (kf *keyFinder) sameBuf(c *Ctx, v ssa.Value) bool {
+	os := c.P.Origins(v, deepF)
+	if len(os) == 0 {
+		return false
+	}
+	for _, o := range os {
+		hit := false
+		for _, b := range kf.bufs {
+			if o == b {
+				hit = true
+			}
+		}
+		if !hit {
+			return false
+		}
+	}
+	return true
+}
+
+func ruleFirstBytes(c *Ctx) {
+	p := c.P
+	n := 0
+	for _, kf := range findKeyFinders(c) {
+		f, rf := kf.f, kf.rf
 		n++
 		key := short(f)
-		buf := p.Resolve(rf.Call.Args[1])
-		// fresh allocation in this function
-		fresh, bad := allocatedIn(c, buf, f)
+		// fresh allocation by this call (in the finder or the helper that reads)
+		fresh, bad := p.AllFrom(rf.Call.Args[1], eng.Deep, func(x ssa.Value) bool {
+			switch y := x.(type) {
+			case *ssa.MakeSlice:
+				return kf.reg.In[y.Parent()]
+			case *ssa.Alloc:
+				return kf.reg.In[y.Parent()] && strings.HasPrefix(y.Type().String(), "*[")
+			}
+			return false
+		})
 		c.CheckAt("FIRSTBYTES", key+":buffer-freshly-allocated", rf, fresh, "the first-bytes buffer is not allocated by this call (e.g. taken from a pool and released on return): the replaying reader still points at it while another connection overwrites it ("+valsStr(p, bad)+")")
-		if mr == nil {
+		mrs := kf.reg.FindCalls(func(n string, _ *ssa.Call) bool { return n == "io.MultiReader" })
+		if len(mrs) == 0 {
 			c.CheckAt("FIRSTBYTES", key+":replays-consumed-bytes", rf, false, "the bytes consumed for the key search are not replayed in front of the client stream (no io.MultiReader)")
 			continue
 		}
+		mr := mrs[len(mrs)-1]
 		// MultiReader(bytes.NewReader(buf), R) with R == ReadFull's reader
 		var elems [2]ssa.Value
 		cnt := 0
@@ -298,19 +358,19 @@ func ruleFirstBytes(c *Ctx) {
 		if cnt == 2 {
 			okFirst = p.AnyFrom(elems[0], eng.OriginOpts{ThroughConvert: true}, func(v ssa.Value) bool {
 				cc, ok := v.(*ssa.Call)
-				return ok && eng.CalleeName(&cc.Call) == "bytes.NewReader" && p.Resolve(cc.Call.Args[0]) == buf
+				return ok && eng.CalleeName(&cc.Call) == "bytes.NewReader" && kf.sameBuf(c, cc.Call.Args[0])
 			})
 			okSecond = p.Resolve(elems[1]) == p.Resolve(rf.Call.Args[0]) || sameOrigin(c, elems[1], rf.Call.Args[0])
 		}
 		c.CheckAt("FIRSTBYTES", key+":replays-exactly-the-bytes-read-then-the-stream", mr, cnt == 2 && okFirst && okSecond, "the reader returned is not io.MultiReader(bytes.NewReader(<the buffer ReadFull filled, whole>), <the same reader>): consumed bytes are lost, duplicated or taken from elsewhere")
 		// the MultiReader result is what is returned on success
 		for _, r := range eng.Returns(f) {
-			if !eng.IsZeroValue(r.Results[len(r.Results)-1]) {
+			if len(r.Results) == 0 || !eng.IsZeroValue(r.Results[len(r.Results)-1]) {
 				continue
 			}
 			for _, rv := range r.Results {
 				if rv.Type().String() == "io.Reader" {
-					g, _ := p.AllFrom(rv, eng.Plain, func(v ssa.Value) bool { return v == ssa.Value(mr) })
+					g, _ := p.AllFrom(rv, deepF, func(v ssa.Value) bool { return v == ssa.Value(mr) })
 					c.CheckAt("FIRSTBYTES", key+":returns-the-replaying-reader", r, g, "on success the key finder does not return the replaying reader")
 				}
 			}
